@@ -534,7 +534,14 @@ func (o *Overlay) handleSendTree(si *network.ServerIdentity, rt *ResponseTree, i
 	}
 	log.Lvl4("Received new tree")
 	verifAt("overlay.treeArriveTested", o, tree)
-	o.RegisterTree(tree)
+	// the test above only spares the work of MakeTree: since it, another response or a
+	// local registration may have stored a tree under this id
+	if !o.treeStorage.SetIfRequested(tree) {
+		log.Lvl2("ignoring tree that is not awaited any more")
+		return
+	}
+	verifAt("overlay.treeSet", o, tree)
+	o.checkPendingMessages(tree)
 }
 
 // Deprecated: roster is not sent anymore, only the tree
